@@ -5,7 +5,7 @@ import xarray as xr
 from typing_extensions import Self
 
 from ..utils.data_types import DataArray, DataObject
-from ..utils.sanity_checks import assert_not_complex
+from ..utils.sanity_checks import assert_not_complex, sanity_check_n_modes
 from ..utils.xarray_utils import get_matrix_rank
 from ..utils.xarray_utils import total_variance as compute_total_variance
 from ._numpy._sparse_pca import compute_rspca, compute_spca
@@ -128,6 +128,8 @@ class SparsePCA(BaseModelSingleSet):
             **kwargs,
         )
         self.attrs.update({"model": "Sparse PCA"})
+        # SparsePCA does not go through the Decomposer, which validates n_modes for the other models
+        sanity_check_n_modes(n_modes)
         self._params.update(
             {
                 "alpha": alpha,
